@@ -26,8 +26,22 @@ MINP, MAXP = SP.MINP, SP.MAXP
 MIRROR = os.path.join(M.VERIF, 'sdk', 'mirror')
 
 
+def sdk_dirs():
+    """the mirror / replay crates point at /repo; for a self-test against a scratch copy (VERIF_REPO) they are copied with the paths rewritten"""
+    if M.REPO == '/repo':
+        return MIRROR, os.path.join(M.VERIF, 'sdk', 'replay')
+    import hashlib, shutil
+    dst = os.path.join(M.WORK, 'sdk_' + hashlib.sha1(M.REPO.encode()).hexdigest()[:8])
+    if not os.path.isdir(dst):
+        shutil.copytree(os.path.join(M.VERIF, 'sdk'), dst, ignore=shutil.ignore_patterns('target', 'Cargo.lock'))
+        for sub in ('mirror', 'replay'):
+            ct = os.path.join(dst, sub, 'Cargo.toml')
+            open(ct, 'w').write(open(ct).read().replace('/repo/', M.REPO + '/'))
+    return os.path.join(dst, 'mirror'), os.path.join(dst, 'replay')
+
+
 def sdk_mir(ctx):
-    return ctx.mir('sdk', crate_dir=MIRROR, features='', name='orca_whirlpools_core')
+    return ctx.mir('sdk', crate_dir=sdk_dirs()[0], features='', name='orca_whirlpools_core')
 
 
 def install_ethnum(e):
@@ -206,9 +220,9 @@ _sdk_exe = {}
 
 def sdk_native(fn, args):
     if 'exe' not in _sdk_exe:
-        d = os.path.join(M.VERIF, 'sdk', 'replay')
+        d = sdk_dirs()[1]
         env = dict(os.environ); env['CARGO_NET_OFFLINE'] = 'true'; env.pop('RUSTUP_TOOLCHAIN', None)
-        t = os.path.join(M.WORK, 'sdk_replay_t')
+        t = os.path.join(M.WORK, 'sdk_replay_t' if M.REPO == '/repo' else 'sdk_replay_t_scratch')
         p = subprocess.run(['cargo', 'build', '--offline', '--target-dir', t], cwd=d, env=env, capture_output=True, text=True)
         exe = os.path.join(t, 'debug', 'sdkreplay')
         _sdk_exe['exe'] = exe if p.returncode == 0 and os.path.exists(exe) else None
@@ -305,6 +319,220 @@ def fees_task(ctx):
     ctx.discharge(obls)
 
 
+# =============================================================================== adaptive-fee manager: SDK port vs program (structural differential)
+CONST_FIELDS = ['filter_period', 'decay_period', 'reduction_factor', 'adaptive_fee_control_factor', 'max_volatility_accumulator', 'tick_group_size', 'major_swap_threshold_ticks']
+VAR_FIELDS = ['last_reference_update_timestamp', 'last_major_swap_timestamp', 'volatility_reference', 'tick_group_index_reference', 'volatility_accumulator']
+FIELD_TY = dict(filter_period='u16', decay_period='u16', reduction_factor='u16', adaptive_fee_control_factor='u32', max_volatility_accumulator='u32', tick_group_size='u16',
+                major_swap_threshold_ticks='u16', last_reference_update_timestamp='u64', last_major_swap_timestamp='u64', volatility_reference='u32',
+                tick_group_index_reference='i32', volatility_accumulator='u32')
+
+
+class FeeWorld:
+    """one engine over the merged MIR of program and SDK mirror; both tick->price functions are the same uninterpreted monotone function
+    (their equality on every tick is obligation sdk:tick_index_to_sqrt_price:*:equals_program), the inverse is a memoised uninterpreted function with contract T2"""
+    def __init__(self, ctx):
+        from props.c08 import PriceFn
+        T.reset()
+        # two engines (program MIR / SDK mirror MIR) over the same term universe: shared price function, shared division memo
+        self.e = M.Engine(ctx.mir(), prune_ms=3000)          # program
+        self.es = M.Engine(sdk_mir(ctx), prune_ms=3000)      # SDK
+        self.es.divmemo = self.e.divmemo
+        install_ethnum(self.es); install_ethnum(self.e)
+        self.pf = PriceFn()
+        self.inv_memo = {}
+        def tick_of(e_, callee, args, path):
+            p = e_.deref(args[0]).t
+            key = T.smt(p)
+            if key not in self.inv_memo:
+                t = T.fresh('tick_of', -443636, 443636)
+                lo = self.pf.price(t); hi = self.pf.price(T.add(t, C(1)))
+                self.pf.side += [T.cmp('<=', lo, p), T.or_(T.cmp('<', p, hi), T.cmp('>=', t, C(443636)))]
+                self.inv_memo[key] = t
+            yield path, I(self.inv_memo[key], 'i32')
+        for en in (self.e, self.es):
+            en.axioms = self.pf.side
+            en.summaries.insert(0, (re.compile(r'sqrt_price_from_tick_index$|tick_index_to_sqrt_price$'), self.pf.summary()))
+            en.summaries.insert(0, (re.compile(r'tick_index_from_sqrt_price$|sqrt_price_to_tick_index$'), tick_of))
+        # shared symbolic state
+        self.c = {f: T.var('c_' + f, 0, (1 << M.BITS[FIELD_TY[f]]) - 1) for f in CONST_FIELDS}
+        self.v = {}
+        for f in VAR_FIELDS:
+            ty = FIELD_TY[f]
+            lo, hi = (-(1 << 31), (1 << 31) - 1) if ty == 'i32' else (0, (1 << M.BITS[ty]) - 1)
+            self.v[f] = T.var('v_' + f, lo, hi)
+        # documented validity of stored constants / variables (validate_constants, accumulator invariant): only what the functions rely on not to panic
+        self.pre = [T.cmp('>=', self.c['tick_group_size'], C(1)), T.cmp('<=', self.v['volatility_reference'], self.c['max_volatility_accumulator']),
+                    T.cmp('>=', self.v['tick_group_index_reference'], C(-443636)), T.cmp('<=', self.v['tick_group_index_reference'], C(443636))]
+
+    def consts(self, sdk):
+        d = {f: I(self.c[f], FIELD_TY[f]) for f in CONST_FIELDS}
+        if not sdk: d['reserved'] = Opaque('reserved')
+        return S(d)
+
+    def vars(self, sdk):
+        d = {f: I(self.v[f], FIELD_TY[f]) for f in VAR_FIELDS}
+        if not sdk: d['reserved'] = Opaque('reserved')
+        return S(d)
+
+    def info(self, sdk):
+        return S({'constants': self.consts(sdk), 'variables': self.vars(sdk)})
+
+
+def same_value(a, b):
+    """conjunction of term equalities between two result values of the same shape (fields compared by name where both sides name them); None if shapes differ"""
+    if isinstance(a, Opaque) or isinstance(b, Opaque): return TRUE
+    if isinstance(a, M.Unit) and isinstance(b, M.Unit): return TRUE
+    if isinstance(a, (I, U256)) and isinstance(b, (I, U256)): return T.cmp('=', a.t, b.t)
+    if isinstance(a, B) and isinstance(b, B): return T.beq(a.t, b.t)
+    if isinstance(a, M.Boxed): a = a.val
+    if isinstance(b, M.Boxed): b = b.val
+    if isinstance(a, E) and isinstance(b, E):
+        if a.var != b.var or len(a.fields) != len(b.fields): return None
+        parts = [same_value(x, y) for x, y in zip(a.fields, b.fields)]
+    elif isinstance(a, S) and isinstance(b, S):
+        if isinstance(a.fields, dict) and isinstance(b.fields, dict):
+            keys = [k for k in a.fields if k in b.fields]
+            parts = [same_value(a.fields[k], b.fields[k]) for k in keys]
+        else:
+            la = list(a.fields.values()) if isinstance(a.fields, dict) else a.fields
+            lb = list(b.fields.values()) if isinstance(b.fields, dict) else b.fields
+            if len(la) != len(lb): return None
+            parts = [same_value(x, y) for x, y in zip(la, lb)]
+    elif isinstance(a, M.Arr) and isinstance(b, M.Arr) and len(a.items) == len(b.items):
+        parts = [same_value(x, y) for x, y in zip(a.items, b.items)]
+    else:
+        return None
+    if any(x is None for x in parts): return None
+    return T.and_(*parts)
+
+
+def outcome(r):
+    if isinstance(r, Panic): return 'panic'
+    if isinstance(r, E) and r.var == 'Err': return 'Err'
+    return 'Ok'        # Ok(v) and a plain value v are the same outcome (the SDK port drops some Result wrappers)
+
+
+def differential(w, name, prog_fn, sdk_fn, mk_args, post=None, pre=()):
+    """run the program function, then the SDK function under each program path's condition (so only jointly feasible pairs are explored), and require the same
+    outcome kind and the same value; `mk_args(sdk)` builds the argument list for either side, `post` = position of a `&mut` argument whose final value on each path is compared as well"""
+    obls = []
+    n = 0
+    for pp, pr in w.e.run(prog_fn, mk_args(False), Path(list(w.pre) + list(pre))):
+        pstate = w.e.last_ext.get(post) if post is not None else None       # final value of the `&mut` argument on THIS path
+        for sp, sr in w.es.run(sdk_fn, mk_args(True), pp):
+            sstate = w.es.last_ext.get(post) if post is not None else None
+            key = f'sdk:{name}:pair{n}'; n += 1
+            ko, so = outcome(pr), outcome(sr)
+            if ko != so and not (ko == 'panic' and so == 'Err') and not (ko == 'Err' and so == 'panic'):
+                o = M.Obligation(key + f':same_outcome_kind:{ko}_vs_{so}', sp.pc, FALSE, note='program and SDK port take different outcomes on a jointly feasible input'); o.replay = None
+                obls.append(o); continue
+            if ko in ('Err', 'panic'): continue
+            pv = pr.fields[0] if isinstance(pr, E) and pr.var == 'Ok' else pr
+            sv = sr.fields[0] if isinstance(sr, E) and sr.var == 'Ok' else sr
+            g = same_value(pv, sv)
+            if g is None:
+                o = M.Obligation(key + ':same_shape', sp.pc, FALSE, note=f'{pv!r:.200} vs {sv!r:.200}'); o.replay = None; obls.append(o); continue
+            if pstate is not None:
+                g2 = same_value(pstate, sstate)
+                g = T.and_(g, g2) if g2 is not None else FALSE
+            o = M.Obligation(key + ':same_result', sp.pc, g, hints=w.pf.side, note='SDK port returns the value (and leaves the state) the program computes'); o.replay = None
+            obls.append(o)
+    return obls, n
+
+
+def install_leaf_summaries(w):
+    """inside FeeRateManager::new both sides call floor_division / ceil_division_u32 / update_reference: replace them, on BOTH sides, by the same function of
+    the same arguments (the leaves are compared separately below) — keeps the comparison of `new` to its own branches"""
+    memo = {}
+    def floor_div(e_, c, a, p):
+        x, y = e_.deref(a[0]).t, e_.deref(a[1]).t
+        pz = e_.fork(p, T.cmp('<=', y, C(0)))
+        if pz: yield pz, Panic('Divisor must be positive.')
+        pn = e_.fork(p, T.cmp('>', y, C(0)))
+        if pn:
+            side = []
+            q, r = e_.divrem(T.add(x, C(1 << 31)), y, side)       # floor((x + 2^31)/y) with a non-negative dividend, then shift back: floor(x/y) = q - ceil... use direct definition instead
+            key = ('fd', T.smt(x), T.smt(y))
+            if key not in memo:
+                fq = T.fresh('floor_q', -(1 << 31), (1 << 31) - 1)
+                memo[key] = (fq, T.and_(T.cmp('<=', T.mul(fq, y), x), T.cmp('<', x, T.mul(T.add(fq, C(1)), y))))
+            fq, lem = memo[key]
+            yield Path(pn.pc + [lem], pn.trace), I(fq, 'i32')
+    def ceil_div(e_, c, a, p):
+        x, y = e_.deref(a[0]).t, e_.deref(a[1]).t
+        ty = a[0].ty if isinstance(a[0], I) else 'u32'
+        pz = e_.fork(p, T.cmp('=', y, C(0)))
+        if pz: yield pz, Panic('Divisor must be positive.')
+        pn = e_.fork(p, T.cmp('>', y, C(0)))
+        if pn:
+            key = ('cd', T.smt(x), T.smt(y))
+            if key not in memo:
+                cq = T.fresh('ceil_q', 0, (1 << M.BITS[ty]) - 1)
+                memo[key] = (cq, T.and_(T.cmp('>=', T.mul(cq, y), x), T.or_(T.cmp('=', cq, C(0)), T.cmp('<', T.mul(T.sub(cq, C(1)), y), x))))
+            cq, lem = memo[key]
+            yield Path(pn.pc + [lem], pn.trace), I(cq, ty)
+    def upd_ref(e_, c, a, p):
+        vars_ref = a[0]
+        v = e_.deref(vars_ref); tgi = e_.deref(a[1]).t; ts = e_.deref(a[2]).t; cs = e_.deref(a[3])
+        key = ('ur',) + tuple(T.smt(v.get(f).t) for f in VAR_FIELDS) + (T.smt(tgi), T.smt(ts)) + tuple(T.smt(cs.get(f).t) for f in CONST_FIELDS)
+        if key not in memo:
+            memo[key] = dict(ok=T.bvar('ur_ok'), vol=T.fresh('ur_vol_ref', 0, 2**32 - 1), tgi=T.fresh('ur_tgi_ref', -(1 << 31), (1 << 31) - 1), ts=T.fresh('ur_ts', 0, 2**64 - 1),
+                             inv=None)
+        m = memo[key]
+        if m['inv'] is None:
+            # what `new` relies on afterwards (C14 invariant, proved for the program by Kani): the new volatility reference does not exceed the configured maximum
+            m['inv'] = T.cmp('<=', m['vol'], cs.get('max_volatility_accumulator').t)
+        pe = e_.fork(p, T.not_(m['ok']))
+        if pe: yield pe, E('Err', [E('InvalidTimestamp')])
+        po = e_.fork(p, m['ok'])
+        if po:
+            nv = v
+            for f, t in (('volatility_reference', m['vol']), ('tick_group_index_reference', m['tgi']), ('last_reference_update_timestamp', m['ts'])):
+                nv = nv.set(f, I(t, FIELD_TY[f]))
+            e_.write_place(vars_ref.frame, vars_ref.place, nv)
+            yield Path(po.pc + [m['inv']], po.trace), E('Ok', [M.Unit()])
+    for en in (w.e, w.es):
+        en.summaries.insert(0, (re.compile(r'(^|::)floor_division$'), floor_div))
+        en.summaries.insert(0, (re.compile(r'(^|::)ceil_division_u32$'), ceil_div))
+        en.summaries.insert(0, (re.compile(r'::update_reference$'), upd_ref))
+
+
+def manager_task(ctx):
+    obls = []
+    stats = {}
+    # ---- leaves: floor_division, ceil_division_u32, ceil_division_u128 (SDK copies vs program)
+    for leaf, tys in (('floor_division', ('i32', 'i32')), ('ceil_division_u32', ('u32', 'u32')), ('ceil_division_u128', ('u128', 'u128'))):
+        w = FeeWorld(ctx)
+        def rng_(ty):
+            return (-(1 << 31), (1 << 31) - 1) if ty == 'i32' else (0, (1 << M.BITS[ty]) - 1)
+        x = T.var('x', *rng_(tys[0])); y = T.var('y', *rng_(tys[1]))
+        o, n = differential(w, leaf, 'int_division_math::' + leaf, leaf, lambda sdk: [I(x, tys[0]), I(y, tys[1])])
+        ctx.discharge(o); stats[leaf] = n        # discharge before the next world resets the term universe
+    # ---- AdaptiveFeeVariables::update_reference / update_volatility_accumulator (called on &mut self)
+    for meth, extra in (('update_reference', lambda: [I(T.var('tgi', -443636, 443636), 'i32'), I(T.var('now', 0, 2**64 - 1), 'u64')]),
+                        ('update_volatility_accumulator', lambda: [I(T.var('tgi2', -443636, 443636), 'i32')])):
+        w = FeeWorld(ctx)
+        xs = extra()
+        frames = {}
+        def mk(sdk, xs=xs, w=w, frames=frames):
+            fr = M.Frame(None); fr.loc = {'_900': w.vars(sdk), '_901': w.consts(sdk)}
+            frames[sdk] = fr
+            return [M.Ref(fr, '_900')] + xs + [M.Ref(fr, '_901')]
+        o, n = differential(w, f'AdaptiveFeeVariables::{meth}', f'oracle::AdaptiveFeeVariables::{meth}', f'math::adaptive_fee::AdaptiveFeeVariablesFacade::{meth}', mk, 0)
+        ctx.discharge(o); stats[meth] = n
+    # ---- FeeRateManager::new (adaptive), leaves summarised identically on both sides
+    w = FeeWorld(ctx)
+    install_leaf_summaries(w)
+    a2b = T.bvar('a_to_b'); tick = T.var('current_tick_index', -443636, 443636); ts = T.var('timestamp', 0, 2**64 - 1); sfr = T.var('static_fee_rate', 0, 65535)
+    def args_new(sdk):
+        return [B(a2b), I(tick, 'i32'), I(ts, 'u64'), I(sfr, 'u16'), E('Some', [w.info(sdk)])]
+    o, n = differential(w, 'FeeRateManager::new', 'fee_rate_manager::FeeRateManager::new', 'math::adaptive_fee::FeeRateManager::new', args_new)
+    obls += o; stats['new'] = n
+    ctx.extra['manager_pairs'] = stats
+    ctx.functions.update(x for x in w.e.executed); ctx.functions.update('sdk ' + x for x in w.es.executed)
+    ctx.discharge(obls)
+
+
 def tasks():
     def delta_args(fb):
         p0 = T.var('p0', MINP, MAXP); p1 = T.var('p1', MINP, MAXP); L = T.var('L', 0, 2**128 - 1)
@@ -319,6 +547,7 @@ def tasks():
         ('sdk:next_b', leaf_task('math::token::try_get_next_sqrt_price_from_b', SP.spec_next_price_from_b, price_args, 'Ok', ('get_next_sqrt_price_from_b_round_down', 'try_get_next_sqrt_price_from_b'), True)),
         ('sdk:tick', tick_task),
         ('sdk:fees', fees_task),
+        ('sdk:fee_manager', manager_task),
     ]
 
 
